@@ -239,7 +239,7 @@ def main(argv):
         print('VIOLATION property=%s replay=%s' % (pid, rp))
         rc = 1
     # stale known findings are informational (a fixed defect should move to "fixed")
-    stale = [k for k in kmap if k not in {v['key'] for v in seen_known}]
+    stale = [k for k in kmap if k not in {v['key'] for v in seen_known} and kmap[k].get('tier', tier) == tier]
     for k in stale:
         print('note: known finding %s no longer reported (repaired?)' % k)
     cov = dict(res.coverage)
